@@ -1,7 +1,96 @@
 import TTV.Sexp
-/-! Driver glue for C12 — stub, replaced when the property's model is built. -/
-namespace TTV.Drv.C12
-open TTV
+import TTV.Model.Conc
+import TTV.Spec.C12
+/-! Driver glue for C12: codecs between S-expressions and `Conc.Input` / `Conc.Trace`.
 
-def handle (_ : List Sexp) : Sexp := .atom "unimplemented"
+input  = `(threads sched)`, thread = `(ops faults)`,
+op     = `(time none|(some n))` | `(tags (n…) (n…))` | `(startTest id)` | `(stopTest id)` | `(outcome kind id)`
+         | `startTestRun` | `stopTestRun` | `stop` | `done` | `shouldStop`,     id = n | `broken`
+trace  = `(log exc finished)`, event = `(i acq)` | `(i rel)` | `(i call <call> T|F)`,
+call   = `(time none|wall|n)` | `(startTest id)` | `(stopTest id)` | `(tags (…) (…))` | `(outcome kind id)` | control atom -/
+namespace TTV.Drv.C12
+open TTV TTV.Sexp TTV.Conc
+
+def tid? : Sexp → Option TId
+  | .atom "broken" => some .broken
+  | s => (nat? s).map .t
+def ofTid : TId → Sexp
+  | .broken => .atom "broken"
+  | .t n => ofNat n
+
+def kind? : Sexp → Option Kind
+  | .atom "success" => some .success | .atom "error" => some .error | .atom "failure" => some .failure
+  | .atom "skip" => some .skip | .atom "xfail" => some .xfail | .atom "uxsuccess" => some .uxsuccess
+  | _ => none
+def ofKind : Kind → Sexp
+  | .success => .atom "success" | .error => .atom "error" | .failure => .atom "failure"
+  | .skip => .atom "skip" | .xfail => .atom "xfail" | .uxsuccess => .atom "uxsuccess"
+
+def ctl? : Sexp → Option Ctl
+  | .atom "startTestRun" => some .startTestRun | .atom "stopTestRun" => some .stopTestRun
+  | .atom "stop" => some .stop | .atom "done" => some .done | .atom "shouldStop" => some .shouldStop
+  | _ => none
+def ofCtl : Ctl → Sexp
+  | .startTestRun => .atom "startTestRun" | .stopTestRun => .atom "stopTestRun"
+  | .stop => .atom "stop" | .done => .atom "done" | .shouldStop => .atom "shouldStop"
+
+def time? : Sexp → Option Time
+  | .atom "none" => some .unset
+  | .atom "wall" => some .wall
+  | s => (nat? s).map .at
+def ofTime : Time → Sexp
+  | .unset => .atom "none" | .wall => .atom "wall" | .at n => ofNat n
+
+def op? : Sexp → Option Op
+  | .list [.atom "time", t] => (opt? nat? t).map .time
+  | .list [.atom "tags", a, b] => do some (.tags (← list? nat? a) (← list? nat? b))
+  | .list [.atom "startTest", i] => (tid? i).map .startTest
+  | .list [.atom "stopTest", i] => (tid? i).map .stopTest
+  | .list [.atom "outcome", k, i] => do some (.outcome (← kind? k) (← tid? i))
+  | s => (ctl? s).map .ctl
+
+def call? : Sexp → Option Call
+  | .list [.atom "time", t] => (time? t).map .time
+  | .list [.atom "tags", a, b] => do some (.tags (← list? nat? a) (← list? nat? b))
+  | .list [.atom "startTest", i] => (tid? i).map .startTest
+  | .list [.atom "stopTest", i] => (tid? i).map .stopTest
+  | .list [.atom "outcome", k, i] => do some (.outcome (← kind? k) (← tid? i))
+  | s => (ctl? s).map .ctl
+def ofCall : Call → Sexp
+  | .time t => tag "time" [ofTime t]
+  | .tags a b => tag "tags" [ofList ofNat a, ofList ofNat b]
+  | .startTest i => tag "startTest" [ofTid i]
+  | .stopTest i => tag "stopTest" [ofTid i]
+  | .outcome k i => tag "outcome" [ofKind k, ofTid i]
+  | .ctl c => ofCtl c
+
+def ev? : Sexp → Option Ev
+  | .list [i, .atom "acq"] => (nat? i).map (·, .acq)
+  | .list [i, .atom "rel"] => (nat? i).map (·, .rel)
+  | .list [i, .atom "call", c, r] => do some (← nat? i, .call (← call? c) (← bool? r))
+  | _ => none
+def ofEv : Ev → Sexp
+  | (i, .acq) => .list [ofNat i, .atom "acq"]
+  | (i, .rel) => .list [ofNat i, .atom "rel"]
+  | (i, .call c r) => .list [ofNat i, .atom "call", ofCall c, ofBool r]
+
+def thread? : Sexp → Option Thread
+  | .list [ops, faults] => do some { ops := ← list? op? ops, faults := ← list? nat? faults }
+  | _ => none
+
+def input? : Sexp → Option Input
+  | .list [ts, sched] => do some { threads := ← list? thread? ts, sched := ← list? nat? sched }
+  | _ => none
+
+def trace? : Sexp → Option Trace
+  | .list [log, exc, fin] => do
+      some { log := ← list? ev? log, exc := ← list? (list? bool?) exc, finished := ← bool? fin }
+  | _ => none
+def ofTrace (t : Trace) : Sexp :=
+  .list [ofList ofEv t.log, ofList (ofList ofBool) t.exc, ofBool t.finished]
+
+def drv : PropDrv Input Trace :=
+  { decI := input?, decT := trace?, encT := ofTrace, model := model, clauses := Spec.C12.clauses }
+
+def handle : List Sexp → Sexp := drv.handle
 end TTV.Drv.C12
